@@ -3,7 +3,10 @@ C03 — Key equality, ordering and hashing agree and ignore how a key was built.
 
 Model: `Model/Key.lean` — `Key.eq`, `Key.cmp`, `hashStream` follow `impl PartialEq / Ord / Hash for Key`
 (metrics/src/key.rs, with the fix-C03 repair of `Ord`) arm by arm; `step`/`run` is `Key::get_hash` at the
-granularity of one atomic operation.  All theorems are for ALL keys (any strings, any number of labels, repeated
+granularity of one atomic operation, together with `Clone for Key::clone` (two thread-local `Cow` clones, then the
+two loads of the memo) so that `clone()` racing with first `get_hash()` calls is inside the model
+(`clone_coherent`, `clone_get_hash_stable`); `CompositeKey.eq/.cmp` follow the derives of
+`metrics_util::CompositeKey`.  All theorems are for ALL keys (any strings, any number of labels, repeated
 names, repeated labels), all permutations, all schedules and any number of threads.
 
 Construction independence is by construction in the model (it sees content only) and is carried by the
@@ -159,7 +162,7 @@ theorem memo_correct (H : List Write → Nat) (k : Key) (n : Nat) (sched : List 
 
 theorem step_idle_iff (o : Ords) (h : Nat) (s : Sys) (t u : Nat) : (step o h s t).pc u = .idle ↔ s.pc u = .idle := by
   by_cases hu : u = t
-  · subst hu; exact (step_rank o h s u).2
+  · subst hu; exact (step_rank o h s u).2.1
   · rw [step_pc_other o h s t u hu]
 
 theorem run_idle_iff (o : Ords) (h : Nat) (sched : List Nat) :
@@ -168,33 +171,146 @@ theorem run_idle_iff (o : Ords) (h : Nat) (sched : List Nat) :
   | nil => intro s u; exact Iff.rfl
   | cons t ts ih => intro s u; exact (ih (step o h s t) u).trans (step_idle_iff o h s t u)
 
+theorem step_isClone (o : Ords) (h : Nat) (s : Sys) (t u : Nat) :
+    ((step o h s t).pc u).isClone = (s.pc u).isClone := by
+  by_cases hu : u = t
+  · subst hu; exact (step_rank o h s u).2.2
+  · rw [step_pc_other o h s t u hu]
+
+/-- a thread that is calling `get_hash()` never finds itself inside `clone()` and vice versa -/
+theorem run_isClone (o : Ords) (h : Nat) (sched : List Nat) :
+    ∀ (s : Sys) (u : Nat), ((run o h s sched).pc u).isClone = (s.pc u).isClone := by
+  induction sched with
+  | nil => intro s u; rfl
+  | cons t ts ih => intro s u; exact (ih (step o h s t) u).trans (step_isClone o h s t u)
+
+/-- after `k` further steps of its own a thread's remaining work has shrunk by `k` -/
+theorem run_own_rank (o : Ords) (h : Nat) (t : Nat) :
+    ∀ (k : Nat) (s : Sys), ((run o h s (List.replicate k t)).pc t).rank ≤ (s.pc t).rank - k := by
+  intro k
+  induction k with
+  | zero => intro s; simp [run]
+  | succ k ih =>
+    intro s
+    have r1 := (step_rank o h s t).1
+    have r2 := ih (step o h s t)
+    simp only [List.replicate_succ, run, List.foldl_cons] at r2 ⊢
+    omega
+
+/-- no call of `get_hash()` waits for another thread — whatever the other callers of `get_hash()` and `clone()`
+    have done so far, and whatever the key's memo was constructed with (consistently): after at most three
+    further steps of its own the caller has returned, and it returned the true hash -/
+theorem get_hash_returns_mixed (H : List Write → Nat) (k : Key) (f0 : Bool) (v0 : Nat)
+    (hc : f0 = true → v0 = generateKeyHash H k) (roles : Nat → Role) (sched : List Nat) (t : Nat)
+    (ht : roles t = .hasher) :
+    (run codeOrds (generateKeyHash H k) (freshOf f0 v0 roles) (sched ++ [t, t, t])).pc t = .done (generateKeyHash H k) := by
+  generalize hh : generateKeyHash H k = h at hc ⊢
+  have hrun : run codeOrds h (freshOf f0 v0 roles) (sched ++ [t, t, t])
+      = run codeOrds h (run codeOrds h (freshOf f0 v0 roles) sched) (List.replicate 3 t) := by
+    simp [run, List.foldl_append, List.replicate]
+  have hidle : (run codeOrds h (freshOf f0 v0 roles) (sched ++ [t, t, t])).pc t ≠ .idle := by
+    rw [Ne, run_idle_iff]; simp [freshOf, ht, Role.start]
+  have hnc : ((run codeOrds h (freshOf f0 v0 roles) (sched ++ [t, t, t])).pc t).isClone = false := by
+    rw [run_isClone]; simp [freshOf, ht, Role.start, PC.isClone]
+  have hnc0 : ((run codeOrds h (freshOf f0 v0 roles) sched).pc t).isClone = false := by
+    rw [run_isClone]; simp [freshOf, ht, Role.start, PC.isClone]
+  have hrank : ((run codeOrds h (freshOf f0 v0 roles) (sched ++ [t, t, t])).pc t).rank = 0 := by
+    rw [hrun]
+    have r := run_own_rank codeOrds h t 3 (run codeOrds h (freshOf f0 v0 roles) sched)
+    have : ((run codeOrds h (freshOf f0 v0 roles) sched).pc t).rank ≤ 3 := by
+      revert hnc0
+      cases (run codeOrds h (freshOf f0 v0 roles) sched).pc t <;> simp [PC.rank, PC.isClone]
+    omega
+  have inv := Inv.run (sched ++ [t, t, t]) (inv_freshOf h f0 v0 roles hc)
+  revert hidle hnc hrank
+  cases hp : (run codeOrds h (freshOf f0 v0 roles) (sched ++ [t, t, t])).pc t <;>
+    simp [PC.rank, PC.isClone]
+  exact inv.vals t _ (Or.inr (Or.inr hp))
+
 /-- no call waits for another thread: whatever happened before, a calling thread has returned after at most
     three further steps of its own — and (with `get_hash_stable`) what it returned is the true hash -/
 theorem get_hash_returns (H : List Write → Nat) (k : Key) (n : Nat) (sched : List Nat) (t : Nat) (ht : t < n) :
     (run codeOrds (generateKeyHash H k) (freshStatic n) (sched ++ [t, t, t])).pc t = .done (generateKeyHash H k) := by
-  generalize hh : generateKeyHash H k = h
-  have hrun : run codeOrds h (freshStatic n) (sched ++ [t, t, t])
-      = run codeOrds h (run codeOrds h (freshStatic n) sched) [t, t, t] := by simp [run, List.foldl_append]
-  have hidle : (run codeOrds h (freshStatic n) (sched ++ [t, t, t])).pc t ≠ .idle := by
-    rw [Ne, run_idle_iff]; simp [freshStatic, ht]
-  have hrank : ((run codeOrds h (freshStatic n) (sched ++ [t, t, t])).pc t).rank = 0 := by
+  have e : freshStatic n = freshOf false 0 (fun t => if t < n then .hasher else .none) := by
+    simp only [freshStatic, freshOf, Sys.mk.injEq, true_and]
+    refine ⟨?_, trivial⟩
+    funext u; by_cases hu : u < n <;> simp [hu, Role.start]
+  rw [e]
+  exact get_hash_returns_mixed H k false 0 (by simp) _ sched t (by simp [ht])
+
+/-! ## `clone()` racing with first `get_hash()` calls, and `get_hash()` on the clone -/
+
+/-- `get_hash_stable` with `clone()` callers in the mix, for a key whose memo was constructed consistently
+    (`from_static_*`: `false, 0`; `builder`: `true, hash`; a clone: see `clone_coherent`): any number of threads,
+    each calling `get_hash()` or `clone()` on the shared key, any interleaving of their atomic operations —
+    every `get_hash()` that has returned returned the true hash -/
+theorem get_hash_stable_mixed (H : List Write → Nat) (k : Key) (f0 : Bool) (v0 : Nat)
+    (hc : f0 = true → v0 = generateKeyHash H k) (roles : Nat → Role) (sched : List Nat) (t v : Nat)
+    (hdone : (run codeOrds (generateKeyHash H k) (freshOf f0 v0 roles) sched).pc t = .done v) :
+    v = generateKeyHash H k :=
+  (Inv.run sched (inv_freshOf _ f0 v0 roles hc)).vals t v (Or.inr (Or.inr hdone))
+
+/-- **a clone never carries a wrong memo**: in the same setting, a `clone()` that has returned a key with
+    `hashed = true` copied the true hash into it — also when it raced with the first `get_hash()` calls.
+    (With `hashed = false` the copied value is never looked at: the clone rehashes.) -/
+theorem clone_coherent (H : List Write → Nat) (k : Key) (f0 : Bool) (v0 : Nat)
+    (hc : f0 = true → v0 = generateKeyHash H k) (roles : Nat → Role) (sched : List Nat) (t : Nat) (f : Bool) (v : Nat)
+    (hdone : (run codeOrds (generateKeyHash H k) (freshOf f0 v0 roles) sched).pc t = .cloned f v) :
+    f = true → v = generateKeyHash H k := by
+  intro hf; subst hf
+  exact (Inv.run sched (inv_freshOf _ f0 v0 roles hc)).cvals t v hdone
+
+/-- **`clone` is a neutral construction path for `get_hash()`**: take any clone made under any interleaving
+    with `get_hash()` / `clone()` callers of the original; share the clone among any number of threads calling
+    `get_hash()` or `clone()` on it, under any interleaving: every `get_hash()` on the clone returns the true
+    hash of the (equal) content, and clones of the clone are coherent again -/
+theorem clone_get_hash_stable (H : List Write → Nat) (k : Key) (f0 : Bool) (v0 : Nat)
+    (hc : f0 = true → v0 = generateKeyHash H k) (roles : Nat → Role) (sched : List Nat) (t : Nat) (f : Bool) (v : Nat)
+    (hdone : (run codeOrds (generateKeyHash H k) (freshOf f0 v0 roles) sched).pc t = .cloned f v)
+    (roles' : Nat → Role) (sched' : List Nat) (u : Nat) :
+    (∀ w, (run codeOrds (generateKeyHash H k) (freshOf f v roles') sched').pc u = .done w → w = generateKeyHash H k)
+    ∧ (∀ f' w, (run codeOrds (generateKeyHash H k) (freshOf f v roles') sched').pc u = .cloned f' w →
+        f' = true → w = generateKeyHash H k) :=
+  have hc' := clone_coherent H k f0 v0 hc roles sched t f v hdone
+  ⟨fun w hw => get_hash_stable_mixed H k f v hc' roles' sched' u w hw,
+   fun f' w hw => clone_coherent H k f v hc' roles' sched' u f' w hw⟩
+
+/-- `clone()` does not wait for anybody either: four steps of its own (two of them thread-local) -/
+theorem clone_returns (H : List Write → Nat) (k : Key) (f0 : Bool) (v0 : Nat) (roles : Nat → Role)
+    (sched : List Nat) (t : Nat) (ht : roles t = .cloner) :
+    ∃ f v, (run codeOrds (generateKeyHash H k) (freshOf f0 v0 roles) (sched ++ [t, t, t, t])).pc t = .cloned f v := by
+  generalize generateKeyHash H k = h
+  have hrun : run codeOrds h (freshOf f0 v0 roles) (sched ++ [t, t, t, t])
+      = run codeOrds h (run codeOrds h (freshOf f0 v0 roles) sched) (List.replicate 4 t) := by
+    simp [run, List.foldl_append, List.replicate]
+  have hc : ((run codeOrds h (freshOf f0 v0 roles) (sched ++ [t, t, t, t])).pc t).isClone = true := by
+    rw [run_isClone]; simp [freshOf, ht, Role.start, PC.isClone]
+  have hrank : ((run codeOrds h (freshOf f0 v0 roles) (sched ++ [t, t, t, t])).pc t).rank = 0 := by
     rw [hrun]
-    generalize run codeOrds h (freshStatic n) sched = s
-    have r1 := (step_rank codeOrds h s t).1
-    have r2 := (step_rank codeOrds h (step codeOrds h s t) t).1
-    have r3 := (step_rank codeOrds h (step codeOrds h (step codeOrds h s t) t) t).1
-    have : (s.pc t).rank ≤ 3 := by cases s.pc t <;> simp [PC.rank]
-    simp only [run, List.foldl_cons, List.foldl_nil]
+    have r := run_own_rank codeOrds h t 4 (run codeOrds h (freshOf f0 v0 roles) sched)
+    have : ((run codeOrds h (freshOf f0 v0 roles) sched).pc t).rank ≤ 4 := by
+      cases (run codeOrds h (freshOf f0 v0 roles) sched).pc t <;> simp [PC.rank]
     omega
-  cases hp : (run codeOrds h (freshStatic n) (sched ++ [t, t, t])).pc t with
-  | done v =>
-    have := (Inv.run (sched ++ [t, t, t]) (inv_freshStatic h n)).vals t v (Or.inr (Or.inr hp))
-    rw [this]
-  | idle => exact absurd hp hidle
-  | loadFlag => rw [hp] at hrank; simp [PC.rank] at hrank
-  | loadHash => rw [hp] at hrank; simp [PC.rank] at hrank
-  | storeHash v => rw [hp] at hrank; simp [PC.rank] at hrank
-  | storeFlag v => rw [hp] at hrank; simp [PC.rank] at hrank
+  revert hc hrank
+  cases hp : (run codeOrds h (freshOf f0 v0 roles) (sched ++ [t, t, t, t])).pc t <;> simp [PC.rank, PC.isClone]
+
+/-! ## `CompositeKey` (metrics-util) inherits the coherence law -/
+
+/-- `CompositeKey(kind, key)`: `a == b` exactly when `a.cmp(b)` is `Equal` — in particular two composite keys of
+    different kinds are never `==`, whatever their keys -/
+theorem ckey_eq_iff_cmp_eq (a b : CompositeKey) : CompositeKey.eq a b = true ↔ CompositeKey.cmp a b = .eq := by
+  unfold CompositeKey.eq CompositeKey.cmp
+  rw [Ordering.then_eq_eq, goodNat.eq_iff, Bool.and_eq_true, eq_iff_cmp_eq, beq_iff_eq]
+  constructor
+  · intro ⟨h1, h2⟩; exact ⟨by rw [h1], h2⟩
+  · intro ⟨h1, h2⟩
+    refine ⟨?_, h2⟩
+    revert h1; cases a.kind <;> cases b.kind <;> simp [Kind.discr]
+
+/-- `==` of composite keys is equality of kind and of the keys' canonical forms -/
+theorem ckey_eq_iff (a b : CompositeKey) : CompositeKey.eq a b = true ↔ (a.kind = b.kind ∧ canon a.key = canon b.key) := by
+  unfold CompositeKey.eq
+  rw [Bool.and_eq_true, beq_iff_eq, eq_iff_canon]
 
 /-! ## tie to the source text (facts no run on x86 can show; regenerated from the repository on every check) -/
 
@@ -206,10 +322,28 @@ theorem src_get_hash_shape :
     ∧ Generated.key_get_hash_computes_from_name_and_labels = true := by decide
 
 /-- obligation: `Clone for Key` reads the flag (acquire) before the value, so a clone that copies
-    `hashed == true` copies the hash that `memo_correct` says is right -/
+    `hashed == true` copies the hash that `memo_correct` says is right; and the body of `clone` contains nothing
+    (closure, nested fn, macro) that could make the order of evaluation differ from the order of the text -/
 theorem src_clone_shape :
     Generated.key_clone_calls = ["hashed.load", "hash.load"]
-    ∧ (Generated.key_clone_orderings.head?.map atLeastAcquire) = some true := by decide
+    ∧ (Generated.key_clone_orderings.head?.map atLeastAcquire) = some true
+    ∧ Generated.key_clone_order_is_textual = true := by decide
+
+/-- obligation: the facts of `get_hash` and `clone` together instantiate the step machine with `codeOrds`, i.e.
+    the machine the theorems above are about is the one in the source -/
+theorem src_memo_shape :
+    ordsOfSources Generated.key_get_hash_calls Generated.key_get_hash_orderings
+      Generated.key_clone_calls Generated.key_clone_orderings = some codeOrds := by decide
+
+/-- obligation: nothing else in metrics/src/key.rs touches the memo.  Outside `get_hash` and `Clone::clone` there is
+    no access to `hashed` / `hash` (so `==`, `cmp`, `Hash`, `Display`, `into_parts` … cannot depend on whether a key
+    has been hashed yet), and the memo is constructed in exactly three places: twice as `(false, 0)` (the `const`
+    constructors, `freshOf false 0`) and once as `(true, generate_key_hash(&name, &labels))` (`builder`,
+    `freshOf true h`) -/
+theorem src_memo_private :
+    Generated.key_memo_accesses_elsewhere = []
+    ∧ Generated.key_memo_constructions = [("false", "0"), ("false", "0"), ("true", "hash")]
+    ∧ Generated.key_builder_hash_from_name_and_labels = true := by decide
 
 /-- `get_hash_stable` for the orderings found in the source -/
 theorem get_hash_stable_src (H : List Write → Nat) (k : Key) (n : Nat) (sched : List Nat) (t v : Nat) (o : Ords)
@@ -219,6 +353,17 @@ theorem get_hash_stable_src (H : List Write → Nat) (k : Key) (n : Nat) (sched 
   rw [src_get_hash_shape.1] at ho
   cases ho
   exact get_hash_stable H k n sched t v hdone
+
+/-- `clone_coherent` for the load order and orderings found in the source -/
+theorem clone_coherent_src (H : List Write → Nat) (k : Key) (roles : Nat → Role) (sched : List Nat) (t : Nat)
+    (f : Bool) (v : Nat) (o : Ords)
+    (ho : ordsOfSources Generated.key_get_hash_calls Generated.key_get_hash_orderings
+      Generated.key_clone_calls Generated.key_clone_orderings = some o)
+    (hdone : (run o (generateKeyHash H k) (freshOf false 0 roles) sched).pc t = .cloned f v) :
+    f = true → v = generateKeyHash H k := by
+  rw [src_memo_shape] at ho
+  cases ho
+  exact clone_coherent H k false 0 (by simp) roles sched t f v hdone
 
 /-! ## non-vacuity, and the defect the repair removes -/
 
@@ -257,9 +402,34 @@ example : (run codeOrds 7 (freshStatic 2) [0, 1, 0, 1, 0, 1]).pc 1 = .done 7
 example : (run codeOrds 7 (freshStatic 2) [0, 0, 0, 1, 1]).pc 1 = .done 7 := by decide
 
 /-- the orderings matter: with `hashed.store(true, Relaxed)` the second thread may return the constructor's 0 -/
-example : (run ⟨false, true⟩ 7 (freshStatic 2) [0, 0, 0, 1, 1]).pc 1 = .done 0 := by decide
+example : (run { codeOrds with flagStoreRelease := false } 7 (freshStatic 2) [0, 0, 0, 1, 1]).pc 1 = .done 0 := by decide
 
 /-- … and likewise with `hashed.load(Relaxed)` -/
-example : (run ⟨true, false⟩ 7 (freshStatic 2) [0, 0, 0, 1, 1]).pc 1 = .done 0 := by decide
+example : (run { codeOrds with flagLoadAcquire := false } 7 (freshStatic 2) [0, 0, 0, 1, 1]).pc 1 = .done 0 := by decide
+
+/-- `clone()` racing with the first `get_hash()` (thread 0 clones, thread 1 hashes): the clone's two loads fall
+    on either side of the hasher's two stores — the clone copies `hashed = false` and will rehash -/
+example : (run codeOrds 7 (freshOf false 0 (rolesOf [.cloner, .hasher])) [0, 0, 0, 1, 1, 1, 0]).pc 0 = .cloned false 0 := by decide
+
+/-- … the clone starts after the hasher has finished: it copies the memo, `(true, 7)` -/
+example : (run codeOrds 7 (freshOf false 0 (rolesOf [.cloner, .hasher])) [1, 1, 1, 0, 0, 0, 0]).pc 0 = .cloned true 7 := by decide
+
+/-- **the order of the two loads in `clone()` matters**: with `hash` loaded before `hashed`, the same race gives a
+    clone with `hashed = true` and the constructor's `hash = 0` … -/
+example : (run { codeOrds with cloneFlagFirst := false } 7 (freshOf false 0 (rolesOf [.cloner, .hasher]))
+    [0, 0, 0, 1, 1, 1, 0]).pc 0 = .cloned true 0 := by decide
+
+/-- … and every later `get_hash()` on that clone returns 0 instead of 7 -/
+example : (run codeOrds 7 (freshOf true 0 (rolesOf [.hasher])) [0, 0]).pc 0 = .done 0 := by decide
+
+/-- the ordering of the flag load in `clone()` matters as well: relaxed, it may pair `true` with a stale value -/
+example : (run { codeOrds with cloneFlagAcquire := false } 7 (freshOf false 0 (rolesOf [.cloner, .hasher]))
+    [1, 1, 1, 0, 0, 0, 0]).pc 0 = .cloned true 0 := by decide
+
+/-- same key, different kinds: never `==`, never `Equal`; same kind: as the keys -/
+example : CompositeKey.eq ⟨.counter, ⟨n, [la1, la2]⟩⟩ ⟨.gauge, ⟨n, [la1, la2]⟩⟩ = false
+    ∧ CompositeKey.cmp ⟨.counter, ⟨n, [la1, la2]⟩⟩ ⟨.gauge, ⟨n, [la1, la2]⟩⟩ = .lt
+    ∧ CompositeKey.eq ⟨.gauge, ⟨n, [la1, la2]⟩⟩ ⟨.gauge, ⟨n, [la2, la1]⟩⟩ = true
+    ∧ CompositeKey.cmp ⟨.histogram, ⟨n, []⟩⟩ ⟨.counter, ⟨n, [la1]⟩⟩ = .gt := by decide
 
 end MetricsVerif.C03
